@@ -1078,3 +1078,44 @@ Qed.
 
 Theorem run_path_block_sem : forall n ss c c', run_path_block n c ss = ROk c' -> sem_block c ss (OFine c').
 Proof. intros n ss. apply path_block. apply Forall_forall. intros s _. apply run_path_sem. Qed.
+
+(* ------------------------------------------------------------------------------------ *)
+(* 10. on straight-line code the checker IS the semantics: it rejects nothing spuriously *)
+
+Theorem straight_complete : forall ss c w,
+  forallb is_simple ss = true -> chk_block c ss = RBad w -> sem_block c ss (OBad w).
+Proof.
+  induction ss as [|s ss IH]; intros c w Hs H; simpl in *; [discriminate|].
+  apply andb_true_iff in Hs. destruct Hs as [H1 H2].
+  assert (E : chk c s = step c s) by (destruct s; try discriminate H1; reflexivity).
+  rewrite E in H. destruct (step c s) as [c1|w'|x] eqn:St; simpl in H; try discriminate.
+  - eapply block_cons; [apply sem_step_ok; [exact H1|exact St]|]. apply IH; assumption.
+  - inversion H. subst w'. apply block_bad. apply sem_step_bad; assumption.
+Qed.
+
+Lemma bad_prefix : forall l1 l2 c w, sem_block c l1 (OBad w) -> sem_block c (l1 ++ l2) (OBad w).
+Proof.
+  induction l1 as [|s l1 IH]; intros l2 c w H; inversion H; subst; simpl.
+  - eapply block_cons; [eassumption|]. apply IH. assumption.
+  - apply block_bad. assumption.
+Qed.
+
+Theorem straight_complete_prefix : forall n ss c w,
+  forallb is_simple (firstn n ss) = true -> chk_block c (firstn n ss) = RBad w -> sem_block c ss (OBad w).
+Proof.
+  intros n ss c w H1 H2. rewrite <- (firstn_skipn n ss). apply bad_prefix. apply straight_complete; assumption.
+Qed.
+
+(* the decision of the post-condition is exact on the names *)
+Lemma strs_eqb_refl : forall l, strs_eqb l l = true.
+Proof. induction l as [|x l IH]; simpl; [reflexivity|]. rewrite String.eqb_refl. exact IH. Qed.
+
+Lemma name_ok_okb : forall s n, name_ok s n -> name_okb s n = true.
+Proof.
+  intros s n H. unfold name_okb. destruct (PM.find (fst n) (env s)) as [[b v]|] eqn:F; [|reflexivity].
+  destruct (H b v F) as [c [o [Hv [Hc [Hs He]]]]]. subst v. rewrite Hc. rewrite Hs, String.eqb_refl. simpl.
+  destruct (snd (snd n)) as [l|]; [|reflexivity]. rewrite (He l eq_refl). apply strs_eqb_refl.
+Qed.
+
+Lemma post_names_okb : forall c s, post c s -> forallb (name_okb s) (x_names c) = true.
+Proof. intros c s [N _]. apply forallb_forall. intros n In. apply name_ok_okb. apply N. exact In. Qed.
